@@ -575,8 +575,10 @@ fn step_vop(ob: &mut ObservableVector<Tracked>, vop: &VOp, mon: &mut Mon) -> Res
                     check_ret(op, &expect, &ret, &ids, None, mon, "transaction ")?;
                     let seen = vals(&contents(tx));
                     if seen != *work {
+                        // the pending changes are visible through the handle (C07), and a transaction
+                        // mutator changes the contents like the same operation on a plain vector (C17)
                         return div(
-                            "C07",
+                            "C07|C17",
                             format!("through the transaction handle after {}: {:?}, model {:?}", op.show(), seen, work),
                         );
                     }
@@ -616,7 +618,7 @@ fn step_vop(ob: &mut ObservableVector<Tracked>, vop: &VOp, mon: &mut Mon) -> Res
                 mon.take_fault()?;
                 let after = vals(&contents(ob));
                 if after != work {
-                    return div("C07", format!("after commit the contents are {after:?}, the transaction's working contents were {work:?}"));
+                    return div("C07|C17", format!("after commit the contents are {after:?}, the transaction's working contents were {work:?}"));
                 }
                 if !mon.has_ref() {
                     // no receiver exists: nothing to publish to; contents were just compared
